@@ -165,6 +165,56 @@ def assignment(ver):
     return st.tuples(*parts).map(lambda t: dict((k, v) for k, v in zip(keys, t) if v is not None))
 
 
+GROUP_MODES = ("absent", "all-nd", "nd-mixed", "partial", "full")
+
+
+def assignment_grouped(ver):
+    """
+    strategy: like assignment(), but every optional GROUP (temporal/threat, environmental, supplemental)
+    draws a mode first: absent (no metric of the group written), all-nd (every metric written as Not
+    Defined), nd-mixed (absent or Not Defined), partial (anything), full (every metric a defined value).
+    Whole-group shapes are what 'is this group used at all' shortcuts key on.
+    """
+    st = _st()
+    V = spec.VERS[ver]
+    parts = [st.sampled_from(V.table[m]) for m in V.mandatory]
+    gnames = list(V.groups)
+    layout = []
+    for g in gnames:
+        ms = V.groups[g]
+        layout.append((g, ms))
+        parts.append(st.sampled_from(GROUP_MODES))
+        for m in ms:
+            vals = V.table[m]
+            defined = tuple(x for x in vals if x != V.nd)
+            parts.append(st.tuples(st.booleans(), st.sampled_from((None,) * len(vals) + tuple(vals)), st.sampled_from(defined)))
+    nmand = len(V.mandatory)
+
+    def build(t):
+        d = dict(zip(V.mandatory, t[:nmand]))
+        i = nmand
+        for g, ms in layout:
+            mode = t[i]
+            i += 1
+            for m in ms:
+                flag, anyv, defv = t[i]
+                i += 1
+                if mode == "absent":
+                    continue
+                if mode == "all-nd":
+                    d[m] = V.nd
+                elif mode == "nd-mixed":
+                    if flag:
+                        d[m] = V.nd
+                elif mode == "partial":
+                    if anyv is not None:
+                        d[m] = anyv
+                else:
+                    d[m] = defv
+        return d
+    return st.tuples(*parts).map(build)
+
+
 def prefix_of(ver):
     st = _st()
     return st.sampled_from(spec.VERS[ver].prefixes)
@@ -187,7 +237,7 @@ def valid_parts(ver):
     """strategy -> (prefix, metrics dict, order list)"""
     st = _st()
     V = spec.VERS[ver]
-    return st.tuples(prefix_of(ver), assignment(ver), order_seed()).map(
+    return st.tuples(prefix_of(ver), st.one_of(assignment(ver), assignment_grouped(ver)), order_seed()).map(
         lambda t: (t[0], t[1], ordered(set(t[1]), V.order, t[2])))
 
 
